@@ -8,12 +8,23 @@ WIDE = ['/', '.', 'a', 'b', 'é', '~', ' ', '..', '//', '漢', '😀', '$', ':',
 def gen(tier, rng):
     n = 8 if tier == 'quick' else 11
     lines = ['clean ' + vlib.hx(s) for s in vlib.all_strings(ALPHA, n)]
+    # component-level exhaustive: every sequence of components over {.., ., a, b, ''} (relative and rooted)
+    import itertools
+    ncomp = 6 if tier == 'quick' else 8
+    seen = set(l for l in lines)
+    for k in range(1, ncomp + 1):
+        for cs in itertools.product(['..', '.', 'a', 'b', ''], repeat=k):
+            for lead in ('', '/'):
+                l = 'clean ' + vlib.hx(lead + '/'.join(cs))
+                if l not in seen:
+                    seen.add(l)
+                    lines.append(l)
     nrand = 20000 if tier == 'quick' else 200000
     for _ in range(nrand):
         k = rng.randint(1, 14)
         lines.append('clean ' + vlib.hx(''.join(rng.choice(WIDE) for _ in range(k))))
     return lines, dict(kind='exhaustive+random', alphabet=ALPHA, max_len=n, exhaustive=True,
-                       exhaustive_count=(4 ** (n + 1) - 1) // 3, random=nrand, random_alphabet=WIDE)
+                       exhaustive_count=(4 ** (n + 1) - 1) // 3, component_sequences_up_to=ncomp, random=nrand, random_alphabet=WIDE)
 
 
 def nontrivial(req, impl):
@@ -24,7 +35,7 @@ def nontrivial(req, impl):
 
 SPEC = dict(
     prop='C14', lean_mod='Rivia.Props.C14', mode='pathfn', gen=gen, nontrivial=nontrivial,
-    rule="all strings over {/,.,a,b} up to the tier's length bound, in order, plus seeded random strings over a wider alphabet "
+    rule="all strings over {/,.,a,b} up to the tier's length bound, in order, every sequence of up to 6 (quick) / 8 (thorough) components over {.., ., a, b, empty} relative and rooted, plus seeded random strings over a wider alphabet "
          "(multi-byte, '~', '$', spaces); a case is non-trivial when clean() changes the string; distinct = distinct request",
     assumptions=['std::path::Components / PathBuf::push / pop behave as transcribed in Rivia/Model/Path.lean (validated by this run, not proved)',
                  'paths are valid UTF-8'],
